@@ -1867,31 +1867,36 @@ struct Value {
 
                 while (item_ != end) {
                     if ((item_ != nullptr) && item_->isObject()) {
-                        SizeT count = 0;
+                        bool found = false; // The grouping key can sit at any position in each object.
 
                         const VItem *obj_item = item_->object_.First();
                         const VItem *obj_end  = item_->object_.End();
 
                         while (obj_item != obj_end) {
-                            if ((obj_item != nullptr) && !(obj_item->Value.isUndefined())) {
-                                if (count != grouped_key_index) {
+                            // Removed members (and members reset to undefined) are skipped.
+                            if (!(obj_item->Value.isUndefined())) {
+                                if (!(obj_item->Key.IsEqual(key, length))) {
                                     new_sub_obj[obj_item->Key] = obj_item->Value;
-                                } else if (!(obj_item->Value.SetCharAndLength(str, str_len))) {
-                                    stream.Clear();
+                                } else {
+                                    found = true;
 
-                                    if (obj_item->Value.CopyValueTo(stream)) {
-                                        str     = stream.First();
-                                        str_len = stream.Length();
-                                    } else {
-                                        return false;
+                                    if (!(obj_item->Value.SetCharAndLength(str, str_len))) {
+                                        stream.Clear();
+
+                                        if (obj_item->Value.CopyValueTo(stream)) {
+                                            str     = stream.First();
+                                            str_len = stream.Length();
+                                        } else {
+                                            return false;
+                                        }
                                     }
                                 }
-
-                                ++count;
-                                ++obj_item;
-                                continue;
                             }
 
+                            ++obj_item;
+                        }
+
+                        if (!found) {
                             return false;
                         }
 
